@@ -6,6 +6,7 @@ import (
 	sentinel "github.com/alibaba/sentinel-golang/api"
 	"github.com/alibaba/sentinel-golang/core/base"
 	"github.com/kataras/iris/v12"
+	"github.com/kataras/iris/v12/context"
 )
 
 func SentinelMiddleware(opts ...Option) iris.Handler {
@@ -40,20 +41,27 @@ func SentinelMiddleware(opts ...Option) iris.Handler {
 		// through that errors.Is / As, public or private as it was) but is a value of its own: if it is
 		// still there afterwards nothing was set for this entry, and the earlier error is put back;
 		// anything else in the slot - also the very same error value - was.
-		var standIn *earlierError
+		var standIn error
 		public, earlier := c.GetErrPublic()
 		if earlier != nil {
-			standIn = &earlierError{earlier}
+			if _, private := earlier.(context.ErrPrivate); private {
+				// (an error can be private by its type: iris asks the error itself, wherever it meets it,
+				// whether its text may go to the client)
+				standIn = &earlierPrivateError{earlierError{earlier}}
+			} else {
+				standIn = &earlierError{earlier}
+			}
 			setErr(c, public, standIn)
 		}
 		c.Next()
-		if err := c.GetErr(); err != nil && (standIn == nil || err != error(standIn)) {
-			sentinel.TraceError(entry, err)
-		} else if standIn != nil {
+		if err := c.GetErr(); standIn != nil && err == standIn {
 			// (as it was: an error stored with SetErrPrivate must not come back as one that iris shows to
 			// the client)
 			setErr(c, public, earlier)
+		} else if err != nil {
+			sentinel.TraceError(entry, err)
 		}
+		// (a slot that is empty now was emptied behind the adapter, and stays empty)
 	}
 }
 
@@ -69,3 +77,8 @@ func setErr(c iris.Context, public bool, err error) {
 type earlierError struct{ error }
 
 func (e *earlierError) Unwrap() error { return e.error }
+
+// earlierPrivateError stands in for an error that is private by its type.
+type earlierPrivateError struct{ earlierError }
+
+func (e *earlierPrivateError) IrisPrivateError() {}
